@@ -9,6 +9,11 @@
 //@item src/bytewise.rs struct State
 //@item src/lib.rs struct Output
 //@item src/lib.rs enum MatchKind
+//@rules keepeq
+//@pre{
+#[derive(Structural)]
+//@}
+//@end
 //@item src/bytewise.rs struct DoubleArrayAhoCorasick
 
 //@impl src/intpack.rs impl U24
